@@ -131,6 +131,27 @@ func c02Replay(c json.RawMessage) Verdict {
 			return bad("location %s on parent %s: assembled structure gives %q, INSDC reading is %q", cs.Text, pb[0], got, pb[1])
 		}
 	}
+	// a feature (already linked to one sequence) added to ANOTHER sequence reports that sequence's bases
+	if cs.P2 != cs.P1 && len(cs.P2) == len(cs.P1) {
+		s1, s2 := poly.Sequence{Sequence: cs.P1}, poly.Sequence{Sequence: cs.P2}
+		f := poly.Feature{Type: "misc_feature", SequenceLocation: loc}
+		s1.AddFeature(&f)
+		s2.AddFeature(&f)
+		s2.AddFeature(&s1.Features[0])
+		for i, ft := range s2.Features {
+			got := func() (out string) {
+				defer func() {
+					if r := recover(); r != nil {
+						out = fmt.Sprintf("<panic: %v>", r)
+					}
+				}()
+				return ft.GetSequence()
+			}()
+			if got != cs.B2 {
+				return bad("location %s: a feature first added to a sequence %s and then to %s reports %q there (copy %d), INSDC reading on the second sequence is %q", cs.Text, cs.P1, cs.P2, got, i, cs.B2)
+			}
+		}
+	}
 	// writing a location to text must not alter it: evaluate again after BuildLocationString, and write twice
 	p1 := printed(loc)
 	if got := seqOf(loc, cs.P1); got != cs.B1 {
